@@ -323,6 +323,61 @@ typed_memory_probe(uint64_t salt)
     VH_COUNT("stores and loads on caller objects that are not character arrays");
 }
 
+/* ---- data that lie across a page boundary, and data that touch the first or last octet of mapped memory. Two
+ * mapped pages between two inaccessible ones: an access outside the datum at the outer edges faults in every
+ * configuration (with or without a sanitizer), and a load or store that treats the part behind a page boundary
+ * differently shows in the values. Called from every codec unit. ---- */
+#include <sys/mman.h>
+#include <unistd.h>
+
+static void
+page_probe(const struct codec *c, uint64_t idx)
+{
+    static unsigned char *pg;
+    static size_t psz;
+    if (pg == NULL) {
+        psz = (size_t)sysconf(_SC_PAGESIZE);
+        unsigned char *m = mmap(NULL, 4 * psz, PROT_NONE, MAP_PRIVATE | MAP_ANONYMOUS, -1, 0);
+        if (m == MAP_FAILED || mprotect(m + psz, 2 * psz, PROT_READ | PROT_WRITE) != 0)
+            vh_broken("cannot map four pages");
+        pg = m + psz; /* two accessible pages */
+    }
+    const int n = c->width / 8;
+    const uint64_t pats[] = { 0x0123456789abcdefull, 0xfedcba9876543210ull, ~0ull, 1ull << (c->width - 1), (1ull << (c->width - 1)) - 1,
+                              0x8000000000000080ull, 0x00000000000000ffull, 0xff00ff00ff00ff00ull, idx * 0x9e3779b97f4a7c15ull + 1 };
+    /* positions: first octet of the mapping, every straddle of the inner boundary (and its neighbours), last octets */
+    for (int pos = -1; pos <= 2 * n + 2; pos++) {
+        size_t off;
+        if (pos == -1)
+            off = 0;
+        else if (pos == 2 * n + 2)
+            off = 2 * psz - (size_t)n;
+        else
+            off = psz - (size_t)n - 1 + (size_t)pos;
+        for (size_t k = 0; k < sizeof pats / sizeof pats[0]; k++) {
+            uint64_t bits = pats[k] & wmask(c->width), v = api_value(c, bits);
+            /* 12 octets around the datum, as far as they are mapped */
+            size_t lo = off >= 12 ? off - 12 : 0, hi = off + (size_t)n + 12 <= 2 * psz ? off + (size_t)n + 12 : 2 * psz;
+            unsigned char exp[40];
+            for (size_t i = lo; i < hi; i++)
+                pg[i] = exp[i - lo] = (unsigned char)(0x3Cu ^ (unsigned)(i * 37u));
+            for (int i = 0; i < n; i++)
+                exp[off - lo + (size_t)i] = (unsigned char)(bits >> ((c->order == 'b') ? 8 * (n - 1 - i) : 8 * i));
+            void *ret = c->set(pg + off, v);
+            if (ret != pg + off + n || memcmp(pg + lo, exp, hi - lo) != 0)
+                vh_fail("set-octets-across-pages", "part=set", "%s value=%016" PRIx64 " at page offset %zu of two %zu-octet pages: memory %s expected %s (return offset %td)",
+                        c->name, v, off, psz, vh_hex(pg + lo, hi - lo), vh_hex(exp, hi - lo), (unsigned char *)ret - (pg + off));
+            memcpy(pg + lo, exp, hi - lo);
+            uint64_t got = c->ref(pg + off);
+            if (got != v)
+                vh_fail("ref-value-across-pages", "part=ref", "%s octets=%s at page offset %zu of two %zu-octet pages: got=%016" PRIx64 " expected=%016" PRIx64,
+                        c->name, vh_hex(pg + off, (size_t)n), off, psz, got, v);
+            cases_local++;
+        }
+    }
+    VH_COUNT("stores and loads across a page boundary and at the edges of mapped memory");
+}
+
 static void
 u_codec(uint64_t idx, void *arg)
 {
@@ -338,6 +393,7 @@ u_codec(uint64_t idx, void *arg)
         exact[n] = vh_arena((size_t)n);
     unsigned rot = (unsigned)idx;
     cases_local = 0;
+    page_probe(c, idx);
 
     if (w <= 24 || (w == 32 && vh_tier)) {
         /* full enumeration, chunked: 16 -> 1 chunk, 24 -> 16 chunks, 32 -> 4096 chunks */
@@ -640,6 +696,7 @@ harness_run(void)
     vh_require("swap values compared");
     vh_require("stores and loads on caller objects that are not character arrays");
     vh_require("range predicate values compared");
+    vh_require("stores and loads across a page boundary and at the edges of mapped memory");
     vh_require("enumerated chunk w=16");
     vh_require("enumerated chunk w=24");
     vh_require("structured values w=64");
